@@ -317,6 +317,9 @@ def step_treat(a, job, status, combo):
             for e in range(N + 1):
                 if not locks[e] and st.state[e, e] == 0:
                     bad.append(f"idle path in slot {e} has zero weight there after sort_trajstate")
+            # the cached probability matrix (used by the next pick) must belong to the current state: a restart recomputes it
+            if st._last_prob is not None and eff.get("prob_for") != (np.abs(np.asarray(st.state, dtype=float)).tolist(), [int(x) for x in st._locks]):
+                bad.append("cached probability matrix was computed for a different state than the current one (stale cache: an uninterrupted run and a restart would pick differently)")
             # path numbering
             n_new = len(job) if status == "ACC" else 0
             if st.config["current"]["traj_num"] != pre["traj_num"] + n_new:
@@ -404,6 +407,7 @@ def run_states(spec, tier, seed):
         ("archive_rows_exactly_once_never_live", ("data-file", "written to the data file")),
         ("path_numbers_fresh", ("traj_num", "new path numbers")),
         ("restart_file_written_once_per_step", ("restart file",)),
+        ("probability_cache_matches_state", ("stale cache",)),
         ("sort_terminates_idle_paths_have_weight", ("sort_trajstate", "re-sorting")),
         ("idle_block_keeps_a_perfect_matching", ("perfect matching",)),
         ("random_streams_keyed_by_job_ordinal", ("streams", "spawned")),
